@@ -174,6 +174,48 @@ theorem dgetLast_eq_dget (d : Dict) (h : (keys d).Nodup) (k : String) : dgetLast
     · simp only [e, if_false]
       cases dget t k <;> rfl
 
+/-! ### defaults -/
+
+theorem dgetLast_none_of_not_mem (d : Dict) (k : String) (h : k ∉ keys d) : dgetLast d k = none := by
+  induction d with
+  | nil => rfl
+  | cons hd t ih =>
+    obtain ⟨a, b⟩ := hd
+    simp only [keys, List.map_cons, List.mem_cons, not_or] at h
+    have : ¬ a = k := fun e => h.1 e.symm
+    simp only [dgetLast, ih h.2, this, if_false]
+
+theorem keys_zip_subset (a : List String) : ∀ (b : List Val) (k : String), k ∈ keys (a.zip b) → k ∈ a := by
+  induction a with
+  | nil => intro b k h; simp [keys] at h
+  | cons x t ih =>
+    intro b k h
+    cases b with
+    | nil => simp [keys] at h
+    | cons y bt =>
+      simp only [List.zip_cons_cons, keys, List.map_cons, List.mem_cons] at h
+      rcases h with h | h
+      · simp [h]
+      · exact List.mem_cons_of_mem _ (ih bt k h)
+
+theorem nodup_keys_zip (a : List String) : ∀ (b : List Val), a.Nodup → (keys (a.zip b)).Nodup := by
+  induction a with
+  | nil => intro b _; simp [keys]
+  | cons x t ih =>
+    intro b h
+    cases b with
+    | nil => simp [keys]
+    | cons y bt =>
+      simp only [List.nodup_cons] at h
+      simp only [List.zip_cons_cons, keys, List.map_cons, List.nodup_cons]
+      exact ⟨fun hm => h.1 (keys_zip_subset t bt x hm), ih bt h.2⟩
+
+theorem wf_parts (s : Sig) (h : s.wf = true) :
+    s.argNames.Nodup ∧ (keys s.kwOnly).Nodup ∧ (∀ k ∈ keys s.kwOnly, k ∉ s.argNames) := by
+  simp only [Sig.wf, Bool.and_eq_true, decide_eq_true_eq, List.all_eq_true, Bool.not_eq_true',
+    List.contains_eq_mem, decide_eq_false_iff_not] at h
+  exact ⟨h.1.1.1.1.2, h.1.1.1.2, fun k hk => h.1.1.2 k hk⟩
+
 /-! ### the `Required` scan -/
 
 theorem firstRequired_none (d : Dict) : firstRequired d = none ↔ ∀ kv ∈ d, kv.2 ≠ Val.required := by
